@@ -7,7 +7,7 @@ import _checker_common as K
 
 ANN_POOL = ['int', 'int', 'str', 'float', 'bool', 'List[int]', 'list[int]', 'Dict[str, int]', 'Optional[int]', 'Union[int, str]',
             'Tuple[int, str]', 'Tuple[int, ...]', 'Set[int]', 'P', 'Any', 'Iterable[int]', 'Iterable[int]', 'Optional[Iterable[int]]', 'Sequence[str]', 'int | None',
-            'Literal[1, 2]', 'Type[P]', 'None', "'P'", "List['C1']", "Optional['P']"]
+            'Literal[1, 2]', 'Type[P]', 'None', "'P'", "List['C1']", "Optional['P']", "List['CQ']"]
 DOC_POOL = ['int', 'str', 'float', 'bool', 'List[int]', 'Dict[str, int]', 'Optional[int]', 'Union[int, str]']
 BARE_POOL = ['list', 'List', 'dict', 'Dict', 'set', 'Set', 'frozenset', 'FrozenSet', 'tuple', 'Tuple', 'type', 'Type', 'Callable', 'Iterable', 'Sequence']
 RET_POOL = ['int', 'str', 'None', 'None', 'List[int]', 'Optional[int]', 'P', 'Any', 'bool', 'Tuple[int, str]']
@@ -516,10 +516,10 @@ class Callers:
         self.late_bound = True
 
     def has_names(self, mode):
-        return mode == 'full' or (mode == 'late' and self.late_bound)
+        return mode == 'full' or (mode == 'late' and self.late_bound)       # ('loop': a coroutine stepped by asyncio - no names)
 
 
-def run_one(target, pos_objs, kw_objs, hook, script, coroutine, caller=None):
+def run_one(target, pos_objs, kw_objs, hook, script, coroutine, caller=None, drive='await'):
     """returns (outcome class, result object or None, journal)"""
     hook.script = script
     del hook.journal[:]
@@ -532,6 +532,10 @@ def run_one(target, pos_objs, kw_objs, hook, script, coroutine, caller=None):
                     res = asyncio.run(res)
             elif isinstance(target, PropAccess):
                 res = {'propget': caller.getp, 'propset': caller.setp, 'propdel': caller.delp}[target.how](target.inst, target.name, *pos_objs)
+            elif coroutine and drive == 'run':
+                res = caller.call(target, pos_objs, kw_objs)        # the coroutine object is made by the caller module …
+                if inspect.iscoroutine(res):
+                    res = asyncio.run(res)                          # … and stepped by the event loop (asyncio.run / create_task / gather)
             elif coroutine:
                 res = asyncio.run(caller.acall(target, pos_objs, kw_objs))      # awaited from a coroutine of the caller module
             else:
@@ -666,7 +670,8 @@ def execute(P, F, acc, pos, kw, body, ctxmode='full'):
         else:
             script = ('ret', K.build_val(body[1]))
         hook.produced = None
-        out, res, journal = run_one(target, pos_objs, kw_objs, hook, script, coroutine, P.callers.mods[ctxmode])
+        out, res, journal = run_one(target, pos_objs, kw_objs, hook, script, coroutine, P.callers.mods['full' if ctxmode == 'loop' else ctxmode],
+                                    drive='run' if ctxmode == 'loop' else 'await')
         caller_objs = pos_objs + list(kw_objs.values())
         remaining = {}      # how many items every one-shot iterator argument still holds after the call (the scripted body never iterates)
         for i, o in enumerate(caller_objs):
@@ -729,6 +734,8 @@ def build_cases(rng, n_callables, calls_per=4, profile='mixed', style=None, tag=
                         else: kw = kw[:j - len(pos)] + [[kw[j - len(pos)][0], ["inst", K.IDX[K.Recv]]]] + kw[j - len(pos) + 1:]
                     body = gen_body(rng, desc)
                     ctxmode = 'full' if rng.random() < 0.85 else 'bare'        # which module the call is made from
+                    if F['flavour'] == 'coroutine' and rng.random() < 0.35:
+                        ctxmode = 'loop'          # the coroutine is stepped by the event loop: the frame above the wrapper is asyncio's
                     impl = execute(P, F, acc, pos, kw, body, ctxmode)
                     implicit = implicit_of(F['kind'], acc)
                     truth = {'realStatic': F['kind'] in ('static_class', 'static_direct'), 'realSetter': acc[0] == 'propset',
@@ -760,13 +767,22 @@ class OneProgram(Programs):
         self.callers = Callers()
 
 
+MODULE_BOUND = {'P': K.P, 'C1': K.C1, 'C2': K.C2, 'G': K.G, 'U': K.U, 'MI': K.MI, 'Text': str}
+# what the PRELUDE of a generated module binds under the names of the context (`from typing import *` makes Text the class str
+# and Counter a generic alias, which is no class: for the model that name is bound to no class)
+
+
 def env_for(P, ctxmode, src=''):
-    """the class table with the context in which the library resolves names for this call: the globals of the module that
-    calls the pedantic wrapper - the calling module, or the generated module itself when a pass-through decorator sits above
-    @pedantic (its prelude binds the context names P C1 C2 G U MI)"""
+    """the class table with the context in which the library resolves names for this call: since 173abdd the names of the module
+    that DEFINES the callable (the generated module: its prelude binds P C1 C2 G U MI) complemented by the globals of the module
+    that calls the pedantic wrapper - the calling module, or the generated module itself when a pass-through decorator sits above
+    @pedantic; a name both bind means what the defining module says"""
     env = K.env_json()
     through = '@passthru\n@pedantic' in src or '@passthru\n    @pedantic' in src
-    return env if (P.callers.has_names(ctxmode) or through) else dict(env, ctx=[])
+    caller = dict(K.CTX) if (P.callers.has_names(ctxmode) and not through) else {}      # 'loop': the event loop's frame binds none of them
+    merged = {**caller, **MODULE_BOUND}
+    merged.pop('Counter', None)
+    return dict(env, ctx=[[K.nid(k), K.IDX[v]] for k, v in merged.items()])
 
 
 def apply_pre(P, pre):
@@ -826,7 +842,7 @@ def gen_scenario(r, idx):
     ret = r.choice([' -> int', ' -> int', ' -> None', ' -> str'])
     k = 'plain' if deco == '@pedantic' else 'require_kwargs'
     if kind == 'context':           # string annotations / forward references, called from modules that bind the names or not (yet)
-        ann = r.choice(["'P'", "'C1'", "List['C1']", "Optional['P']", "Dict[str, 'P']"])
+        ann = r.choice(["'P'", "'C1'", "List['C1']", "Optional['P']", "Dict[str, 'P']", "'CQ'", "List['CQ']"])
         retann = r.choice([' -> None', ' -> None', f' -> {ann}'])
         def fn(nm, i, dec):
             return (dec + '\n' if dec else '') + f'{d} {nm}(p0: {ann}){retann}:\n    return _BODY({idx * 2 + i}, locals())\n'
